@@ -234,7 +234,7 @@ impl CoverageFormat2<'_> {
             .ok()
             .map(|idx| {
                 let rec = &self.range_records()[idx];
-                rec.start_coverage_index() + gid.to_u16() - rec.start_glyph_id().to_u16()
+                rec.start_coverage_index() + (gid.to_u16() - rec.start_glyph_id().to_u16())
             })
     }
 
